@@ -100,7 +100,7 @@ def v_gauss(case, R):
     ref = np.empty((*lead, N))
     for idx in np.ndindex(*lead):
         ref[idx] = np.atleast_1d(scipy.stats.multivariate_normal(mean[idx], cov[idx]).logpdf(x[idx]))
-    tol = 50 * np.finfo(float).eps * case['cond'] * (1 + np.abs(ref)) + 1e-12
+    tol = 50 * np.finfo(float).eps * case['cond'] * max(D, 1) * (1 + np.abs(ref)) + 1e-12
     offdiag = float(np.abs(cov - np.einsum('...ii->...i', cov)[..., None] * np.eye(D)).max()) if D > 1 else 0.0
     if _cmp(R, 'C07.gauss', got, ref, tol, 'gaussian-full', case, cond=case['cond']) and offdiag > 1e-3:
         _sig(R, case, 'nondiag')
@@ -160,7 +160,7 @@ def v_ccsg(case, R):
         R.fail('C07.ccsg', 'complex-gaussian/raised', f'log_pdf raised {type(e).__name__}: {e}'[:200], D=D, lead=list(lead))
         return
     ref = oracles.ccsg_log_pdf(x, cov)
-    tol = 50 * np.finfo(float).eps * cond * (1 + np.abs(ref)) + 1e-12
+    tol = 50 * np.finfo(float).eps * cond * max(D, 1) * (1 + np.abs(ref)) + 1e-12
     if _cmp(R, 'C07.ccsg', got, ref, tol, 'complex-gaussian', case):
         _sig(R, case)
 
